@@ -49,8 +49,9 @@ def run(chk):
     rng = chk.rng
     quick = chk.tier == 'quick'
     chk.trusted += ['harness/py2coq.py + gen_c09.py (T-fun translator)',
+                    'harness/shape.py: AST lookup of the statements mirrored by the hand model (Gen/C09Shape.v)',
                     'modelled not verified: Python str slicing / str.find / str.startswith / str.endswith / `in` / '
-                    'str.translate(dict) / str.split() whitespace class (py_isspace) as written in C09/Model.v; '
+                    'str.translate(dict) / re.split on the literal class [ \\t\\n\\r]+ as written in C09/Model.v; '
                     'upper-case/lower-case (str.upper/lower), non-codepoint collations, URI escaping (urllib.quote) are not modelled',
                     'helpers.round_number is modelled by C06.round_md (proved = floor(x+1/2))']
     st = gen_c09.generate()
@@ -61,7 +62,7 @@ def run(chk):
         chk.record_source(f)
     chk.forbidden_scan(['C09'])
     proved = all(v == 'ok' for v in st.values()) and chk.prove(
-        ['theories/Gen/C06Kernels.v', 'theories/C06/Model.v', 'theories/C06/Proofs.v', 'theories/Gen/C09Helpers.v',
+        ['theories/Gen/C06Kernels.v', 'theories/C06/Model.v', 'theories/C06/Proofs.v', 'theories/Gen/C09Helpers.v', 'theories/Gen/C09Shape.v',
          'theories/C09/Model.v', 'theories/C09/Proofs.v', 'theories/C09/Run.v'], 'theories/C09/Properties.v')
     model_ok = True
     if not proved:
@@ -193,10 +194,7 @@ def run(chk):
             if got != list(mo):
                 chk.corr_fail.append((desc | {'parser': P.__name__}, got, list(mo)))
             if got != list(sp):
-                if k == 'normalize' and got == list(mo):
-                    chk.known('C09-normalize-space-unicode-whitespace', desc | {'impl': got, 'spec': list(sp)})
-                else:
-                    chk.violation('impl-vs-spec', desc | {'parser': P.__name__}, {'impl': got, 'spec': list(sp), 'model': list(mo)})
+                chk.violation('impl-vs-spec', desc | {'parser': P.__name__}, {'impl': got, 'spec': list(sp), 'model': list(mo)})
         # libxml2 cross-check of the XPath 1.0 functions (an independent reading of the spec)
         if sp is not None and k in ('substring2', 'substring3', 'find', 'translate', 'normalize') and not (k == 'find' and a[0] == 2):
             strs = [v for v in var.values() if isinstance(v, str)]
